@@ -255,7 +255,8 @@ func vApplyLayout(doc string, layout int) (string, map[string]string) {
 		for _, l := range lines {
 			t := strings.TrimLeft(l, " ")
 			for _, kw := range []string{"URL ", "GET ", "POST ", "PUT ", "PATCH ", "DELETE "} {
-				if strings.HasPrefix(t, kw) && strings.HasPrefix(t[len(kw):], "/") {
+				if strings.HasPrefix(t, kw) && strings.HasPrefix(t[len(kw):], "/") &&
+					!strings.HasPrefix(t[len(kw):], "/*") && !strings.HasPrefix(t[len(kw):], "//") { // a path, not an annotation
 					rest := t[len(kw):]
 					e := strings.IndexAny(rest, " \n")
 					l = l[:len(l)-len(t)] + kw + "\"" + rest[:e] + "\"" + rest[e:]
